@@ -57,7 +57,13 @@ FileOf(dir, q, slot, arch, shift) ==
         meth |-> meth, enc |-> enc, lc |-> lc,
         cc   |-> Nth(Contents, qq + (qq \div 90) + arch),
         unit |-> unit,
-        crc  |-> dir = 2 /\ (qq \div 5) % 3 = 0 ]              \* direction 2: sector checksums (effective for sectored COMPRESS files)
+        crc  |-> dir = 2 /\ (qq \div 5) % 3 = 0,
+        \* direction 2: parameters of the foreign compressor.  zlib: window bits 9..15 (CMF byte 0x18..0x78 of the RFC 1950
+        \* header), level 1/3/6/9 (FLEVEL bits: headers 0x7801, 0x785E, 0x789C, 0x78DA at 32 KiB), strategy; bzip2: block size 1..9
+        wbits  |-> 9 + ((qq \div 2) % 7),
+        zlevel |-> Nth(<<6, 1, 9, 3>>, qq \div 4),
+        zstrat |-> Nth(<<"default", "filtered", "default", "rle", "huffman", "default", "fixed">>, qq \div 3),
+        bzlevel |-> 1 + ((qq \div 3) % 9) ]
 
 ArchiveOf(dir, arch, q0) ==
   LET shift == (arch \div 2) % 4
